@@ -5,7 +5,7 @@
 From Coq Require Import ZArith List Bool.
 Import ListNotations.
 From MemSafe Require Import Model Gen_Used Gen_Helpers ModelMem ModelWrites ModelDiv Spec
-  ModelExec SpecExec ProofsUsed ProofsFree ProofsDiv ProofsWrites ProofsTotal ProofsExec.
+  ModelExec SpecExec ModelScope ProofsUsed ProofsFree ProofsDiv ProofsWrites ProofsTotal ProofsExec ProofsRun.
 Open Scope Z_scope.
 
 (* Every allocation of every scope is released exactly once, in the same scope (hence on every path through it and in
@@ -86,3 +86,12 @@ Print Assumptions C08_total.
 Theorem C08_exec_certificate : forall q, exec_safe_b q = true -> runs_clean q.
 Proof. exact exec_safe_sound. Qed.
 Print Assumptions C08_exec_certificate.
+
+(* The dynamic reading of C08's allocation clause, for ALL procedures: if the input is well-formed and its buffers are
+   lexically scoped (both executable predicates, evaluated by the harness on every exported real procedure), then every
+   execution of the analysed procedure — any branch, any trip count — touches live allocations only, frees nothing twice,
+   leaves no scope with a block still allocated, and ends with nothing live. *)
+Theorem C08_runs_clean : forall p q,
+  wf_b p = true -> ascoped_b p = true -> insert_frees p = Ok q -> runs_clean q.
+Proof. exact runs_clean_all. Qed.
+Print Assumptions C08_runs_clean.
